@@ -166,7 +166,9 @@ func (c *faultConn) Close() error {
 }
 
 type c01Result struct {
-	outage       bool   // the bulk-upload-with-outage scenario
+	outage  bool // the bulk-upload-with-outage scenario
+	tailCut bool // the first carrier is cut while the last bytes of the download are on their way (the bridge has
+	//                     written everything and closed its end by then); the next carrier appears a little later
 	slowConsumer bool   // bulk download to a client that stops reading for a while; the other sessions must not notice
 	idGroup      []byte // non-nil: base of a group of nearly identical ClientIDs
 	session      uint32
@@ -267,6 +269,16 @@ func c01Client(serverAddr string, res *c01Result, seed int64, maxFaults int, dea
 		}
 		if res.outage {
 			f = c01OutageFault(k, res.downLen > res.upLen)
+		}
+		if res.tailCut && k == 1 {
+			back := 1 + rng.Intn(3000)
+			if back > res.downLen {
+				back = res.downLen
+			}
+			f = c01Fault{upBudget: -1, downBudget: res.downLen - back}
+		}
+		if res.tailCut && k == 2 {
+			f.dialDelay = time.Duration(200+rng.Intn(600)) * time.Millisecond
 		}
 		if res.slowConsumer {
 			// a bulk download whose client stops reading its (otherwise healthy) carrier for 6 s after 128 KiB
@@ -549,6 +561,28 @@ func c01Stack(t *testing.T, prop string) {
 			go c01Serve(conn, &results, deadline)
 		}
 	}()
+	// the same Transport listening on a second address (a bridge with two bind addresses): every third session
+	// uses it; a session always stays with the address it started on
+	addr2 := addr
+	if l2, err := net.Listen("tcp", "127.0.0.1:0"); err == nil {
+		a2 := l2.Addr().(*net.TCPAddr)
+		l2.Close()
+		if ln2, err := transport.Listen(a2); err == nil {
+			defer ln2.Close()
+			addr2 = a2
+			go func() {
+				for {
+					conn, err := ln2.Accept()
+					if err != nil {
+						return
+					}
+					go c01Serve(conn, &results, deadline)
+				}
+			}()
+		} else {
+			r.Note("second Listen on the same Transport failed: %v", err)
+		}
+	}
 
 	frozenDone := make(chan struct{})
 	if prop == "C01" {
@@ -588,6 +622,9 @@ func c01Stack(t *testing.T, prop string) {
 			res.slowConsumer = true
 			res.upLen, res.downLen = 1000, 6<<20
 		}
+		if !res.outage && !res.slowConsumer && res.downLen >= 5000 && rng.Intn(4) == 0 {
+			res.tailCut = true
+		}
 		if s%2 == 0 {
 			res.idGroup = idBase
 		}
@@ -599,7 +636,11 @@ func c01Stack(t *testing.T, prop string) {
 			sem <- struct{}{}
 			defer func() { <-sem }()
 			t0 := time.Now()
-			c01Client(addr.String(), res, seed, maxFaults, deadline)
+			target := addr
+			if res.session%3 == 2 {
+				target = addr2
+			}
+			c01Client(target.String(), res, seed, maxFaults, deadline)
 			res.elapsed = time.Since(t0)
 			res.endedAt = time.Now()
 		}(res, rng.Int63())
